@@ -173,6 +173,8 @@ func (self *NumTypeEnclosure) ReduceFast(e2Dtype SS_DTYPE, e2int64 int64,
 			self.IntgrVal = e2int64
 		case SS_DT_FLOAT:
 			self.FloatVal = e2float64
+		case SS_DT_BACKFILL, SS_INVALID:
+			// the first node has no value; a later node may bring one (handled below)
 		default:
 			return fmt.Errorf("ReduceFast: unsupported e2 Dtype: %v", e2Dtype)
 		}
